@@ -55,7 +55,7 @@ structure Inc where
   last : Int := 0                            -- pool.LastLiquidityUpdate
   now : Int := 0                             -- ctx.BlockTime()
   factor : Int := 10 ^ 18                    -- incentive accumulator scaling factor of the pool (Dec)
-  authorized : Nat := 4                      -- number of authorised uptimes (a prefix of the supported ones)
+  authorized : Nat := 15                     -- authorised uptimes (`AuthorizedUptimes` param): bit i set = supported uptime i authorised (any subset)
   join : List (Nat × Int) := []              -- position join times
   bal : Coins := []                          -- balances of the pool's incentives address
   nextRec : Nat := 1                         -- next incentive record id (engine tells the id; kept for reference)
@@ -371,7 +371,7 @@ def createIncentive (s : Full) (id : Nat) (denom : String) (amount rate start : 
   if amount ≤ 0 then none else
   if start < s.inc.now then none else
   if rate ≤ 0 then none else
-  if uptime ≥ s.inc.authorized then none else
+  if ¬ s.inc.authorized.testBit uptime then none else
   (sync s.inc s.fees.pool.liquidity).bind fun i1 =>
   (Accum.coinsAdd i1.bal denom amount).map fun b =>
     { s with inc := { i1 with records := insertRec i1.records ⟨id, uptime, denom, amount * P18, rate, start⟩, bal := b, nextRec := id + 1 } }
